@@ -25,8 +25,10 @@ DiagOf(fm, g) == IF Broken(fm[g]) THEN g \o "/" \o fm["cfg"] \o fm["main"] \o (I
 Kinds == {"completion", "definition", "highlight", "hover", "onType", "prepareRename", "references", "rename",
           "codeLens", "documentSymbol", "formatting", "semanticTokens", "workspaceSymbol"}
 (* one analysed line "aé b" (bytes 0..5, byte 2 is inside the two-byte character); position classes as coordinates *)
-LT == <<[bytes |-> 5, u16 |-> 4, chars |-> 4, nb |-> <<2>>]>>
-PosOf == [valid |-> <<0, 1>>, pastEol |-> <<0, 9>>, pastEof |-> <<5, 0>>, insideMb |-> <<0, 2>>, afterMb |-> <<0, 3>>]
+(* ... followed by an arrow and a word, "aé b→cd": the arrow is a three-byte delimiter (bytes 5..7, 6 and 7 inside it), the word behind   *)
+(* it occupies the character columns 5..7 (its end included): for those the word start is looked up behind a multi-byte delimiter *)
+LT == <<[bytes |-> 10, u16 |-> 7, chars |-> 7, nb |-> <<2, 6, 7>>, wsmb |-> <<5, 6, 7>>]>>
+PosOf == [valid |-> <<0, 1>>, pastEol |-> <<0, 19>>, pastEof |-> <<5, 0>>, insideMb |-> <<0, 2>>, afterMb |-> <<0, 3>>, wordAfterMbDelim |-> <<0, 6>>]
 PosClasses == DOMAIN PosOf
 
 VARIABLES s, disk, hist
